@@ -18,6 +18,7 @@ from real import snapshot, Unsupported
 
 _DRV = None
 MIXED_SAFE = {"C03", "C07", "C14"}
+RESUME_SAFE = {"C10"}      # a pure continuation (both flags off): the clock and every log go on, index = time
 
 
 def _drv():
@@ -142,7 +143,8 @@ def evaluate(spec, params, prop_ids, want_lockstep=True):
     mixed = not (params.get("initState", True) and params.get("initLog", True))
     for pid in prop_ids:
         fpred = preds.PREDS.get(pid)
-        if fpred is None or (mixed and pid not in MIXED_SAFE):
+        resumed = params.get("initState", True) is False and params.get("initLog", True) is False
+        if fpred is None or (mixed and pid not in MIXED_SAFE and not (resumed and pid in RESUME_SAFE)):
             continue
         try:
             vs = fpred(model, params, run)
